@@ -38,3 +38,8 @@ func (am *AllocatorManager) VerifMaxSuffix() int32 {
 	defer am.mu.RUnlock()
 	return am.mu.maxSuffix
 }
+
+// VerifSetMaxSuffix raises the manager's cached max suffix (what setting up dc-locations does).
+func (am *AllocatorManager) VerifSetMaxSuffix(s int32) {
+	am.compareAndSetMaxSuffix(s)
+}
